@@ -68,6 +68,7 @@ var Dests = []Dest{
 	dt("map[string]iface", new(map[string]interface{})),
 	dt("map[iface]iface", new(map[interface{}]interface{})),
 	dt("map[int]string", new(map[int]string)),
+	dt("map[string]int", new(map[string]int)),
 	dt("map[string][]byte", new(map[string][]byte)),
 	dt("map[string]S2", new(map[string]S2)),
 	dt("[]iface", new([]interface{})),
@@ -122,10 +123,12 @@ type TypeStats struct {
 	HasIface  bool // contains interface{} (or Raw): nesting is bounded by MaxDepth only
 	HasBytes  bool // contains []byte / [N]byte (usableByteSlice: up to 64 MB for a claimed length)
 	Recursive bool
+	Flat      bool // containers of scalars / strings / byte strings only (no pointers, structs, interfaces)
 }
 
 func StatsOf(t reflect.Type) TypeStats {
 	var st TypeStats
+	st.Flat = true
 	seen := map[reflect.Type]bool{}
 	var walk func(t reflect.Type, d int)
 	walk = func(t reflect.Type, d int) {
@@ -135,16 +138,19 @@ func StatsOf(t reflect.Type) TypeStats {
 		if t == rawType || t == timeType {
 			if t == rawType {
 				st.HasIface = true
+				st.Flat = false
 			}
 			return
 		}
 		switch t.Kind() {
 		case reflect.Interface:
 			st.HasIface = true
+			st.Flat = false
 			if st.MaxUnit < 48 {
 				st.MaxUnit = 48
 			}
 		case reflect.Ptr:
+			st.Flat = false
 			walk(t.Elem(), d)
 		case reflect.Slice, reflect.Array:
 			if t.Elem().Kind() == reflect.Uint8 {
@@ -162,6 +168,7 @@ func StatsOf(t reflect.Type) TypeStats {
 			walk(t.Key(), d+1)
 			walk(t.Elem(), d+1)
 		case reflect.Struct:
+			st.Flat = false
 			if seen[t] {
 				st.Recursive = true
 				return
@@ -211,6 +218,22 @@ func AllocBound(st TypeStats, o Opts, n int) (k0, k1 uint64) {
 		k1 = 16 // a scalar destination (string, number, time): the value is copied, buffers grow geometrically
 	}
 	return
+}
+
+// AllocBoundN is the bound when the number of values nv in the input is known by construction
+// (every value costs at least a byte, so nv <= n): the per-element constant is paid per value, the
+// payload at 16 bytes per input byte.  For containers of scalars / strings only the per-element
+// constant is 64 + 8*unit (slot, growth by append, map bucket share); otherwise as AllocBound.
+func AllocBoundN(st TypeStats, o Opts, n, nv int) uint64 {
+	k0, k1 := AllocBound(st, o, n)
+	if nv <= 0 || nv > n {
+		return k0 + k1*uint64(n)
+	}
+	per := k1
+	if st.Flat && !st.HasIface {
+		per = 64 + 8*uint64(st.MaxUnit)
+	}
+	return k0 + per*uint64(nv) + 16*uint64(n)
 }
 
 // ---- type-directed documents ----
